@@ -437,6 +437,16 @@ theorem C14t_program_never_after_dtor (n K : Nat) (ident : Nat → Nat) (fc : Bo
   C14q_never_after_dtor_returned n K ident fc srcs hK hid l₁ l₂ b c r r' e p₁.s p.s
     (runLog_pstep_step l₁ _ _ h1) hb (runLog_pstep_step _ _ _ h2)
 
+/-- **Maximal runs of a program exist and are short**: every program state extends, by at most
+    `mu` of pika's own non-stutter steps and without consuming the program, to a state in which all
+    operations invoked so far have returned (`Maximal`). -/
+theorem C14t_program_maximal_exists (p : PSt) :
+    ∃ l s', runLog pstep p l = some ⟨s', p.ops, p.m⟩ ∧ Maximal s' ∧ l.length ≤ mu p.s := by
+  obtain ⟨l, s', hl, hm, hlen, _, hall⟩ := C14t_maximal_exists p.s
+  refine ⟨l, s', lift_run l p s' (fun e he => ?_) hl, hm, hlen⟩
+  have := hall e he
+  cases e <;> simp_all [productive, envEv]
+
 /-- the run of a program is over: the program state accepts nothing but stutters -/
 def PMaximal (p : PSt) : Prop := ∀ e p', pstep p e = some p' → stutter p.s e = true
 
